@@ -91,6 +91,24 @@ def check_sink(ck: Checker, f: Func, sink: Sink, kind: str, rule: str) -> None:
     else:
         viol(what, f"hashed with {sink.algo}", sink.call)
 
+    # --- the text is turned into bytes injectively
+    what = f"{label} is encoded without an error handler that maps different texts to the same bytes"
+    lossy = None
+    for c in ast.walk(sink.node if sink.node is not None else sink.call):
+        if isinstance(c, ast.Call) and isinstance(c.func, ast.Attribute) and c.func.attr == "encode":
+            handler = c.args[1] if len(c.args) > 1 else next((k.value for k in c.keywords if k.arg == "errors"), None)
+            if handler is not None:
+                if isinstance(handler, ast.Constant) and handler.value in ("strict", "surrogatepass"):
+                    continue
+                if isinstance(handler, ast.Constant) and handler.value in ("ignore", "replace", "backslashreplace", "xmlcharrefreplace", "namereplace"):
+                    lossy = f"encode(errors={handler.value!r}): a character that cannot be encoded and its replacement text hash to the same bytes"
+                else:
+                    raise Unsupported(f"{label}: encode error handler {norm(handler)[:40]}", c)
+    if lossy:
+        viol(what, lossy, sink.call)
+    else:
+        ck.holds(rule, f, sink.call, what)
+
     # --- loops
     props = [lp for lp in loops if _iter_call(lp)[0] == "get_properties"]
     kids = [lp for lp in loops if _iter_call(lp)[0] in ("get_child_nodes_with_field", "get_child_nodes", "iter_child_fields", "children")]
